@@ -1246,15 +1246,16 @@ def main(argv=None):
     ap.add_argument('--seed', default='1')
     ap.add_argument('--n', type=int, default=300)
     ap.add_argument('--special', action='store_true', help='only the hand-written cases, one line each')
+    ap.add_argument('--binary', help='harness binary (default: the shared debug build)')
     ap.add_argument('--dump', help='directory: write the file sets of the smallest example per finding')
     a = ap.parse_args(argv)
     if a.special:
         for strict in (True, False):
             cs = special_cases(strict)
-            for c, ans in zip(cs, run_incl(cs)):
+            for c, ans in zip(cs, run_incl(cs, a.binary)):
                 print('%-7s %-62s %s' % ('strict' if strict else 'lenient', c['label'], check_c16(c, ans) or 'ok'))
         return 0
-    res = experiment(a.seed, a.n, verbose=True)
+    res = experiment(a.seed, a.n, binary=a.binary, verbose=True)
     if a.dump:
         for (kind, tag), (size, c, detail) in res['examples'].items():
             d = os.path.join(a.dump, '%s_%s' % (kind, tag))
